@@ -58,8 +58,9 @@ def gen_partfile(h: Harness, tier, workdir, known):
         if k.get("harness") == h.name and k.get("exclude"):
             pres.append("not (" + k["exclude"] + ")")
     lines = ["import sys", "sys.path.insert(0, '/verif')", "from vlib import env",
-             "from vlib.runtime import run_body", f"import {h.module} as _hm", f"from {h.module} import {h.name} as _f",
-             "globals().update({k: v for k, v in vars(_hm).items() if not k.startswith('__')})  # names used by pre-conditions", ""]
+             "from vlib.runtime import run_body", f"import {h.module} as _hm",
+             "globals().update({k: v for k, v in vars(_hm).items() if not k.startswith('__')})  # names used by pre-conditions",
+             f"_verif_body = _hm.{h.name}", ""]
     names = []
     for tag, extra in t["parts"]:
         fn = f"{h.name}__{tag}"
@@ -67,10 +68,15 @@ def gen_partfile(h: Harness, tier, workdir, known):
         lines += [f"def {fn}({h.args}) -> bool:", '    """']
         # the partition clause goes FIRST: CrossHair evaluates pre-conditions in order and forks on
         # each comparison, so the most restrictive clause must prune before the general ones fork
-        lines += ["    pre: " + extra]
-        lines += ["    pre: " + p for p in pres]
+        if h.pre_order == "base_first":
+            lines += ["    pre: " + p for p in list(h.pre) + list(t["pre"])]
+            lines += ["    pre: " + p for p in pres[len(h.pre) + len(t["pre"]):]]  # known-finding exclusions
+            lines += ["    pre: " + extra]
+        else:
+            lines += ["    pre: " + extra]
+            lines += ["    pre: " + p for p in pres]
         lines += ["    post: _", '    """',
-                  f"    return run_body(_f, ({', '.join(h.argnames)},))", ""]
+                  f"    return run_body(_verif_body, ({', '.join(h.argnames)},))", ""]
     path = os.path.join(workdir, f"part_{h.name}.py")
     with open(path, "w") as f:
         f.write("\n".join(lines))
@@ -100,8 +106,9 @@ def replay(h: Harness, args, workdir, trace=False):
     af = os.path.join(workdir, f"args_{h.name}_{key}.json")
     json.dump(args, open(af, "w"))
     cmd = [PLAINPY, "-m", "vlib.replay", h.module, h.name, af] + (["--trace"] if trace else [])
+    R = os.environ.get("VERIF_REPO", "/repo")
     env = dict(os.environ, VERIF_MODE="replay",
-               PYTHONPATH="/verif:/repo:/repo/pdks/Sky130:/repo/pdks/Gf180:/repo/pdks/Asap7")
+               PYTHONPATH=f"/verif:{R}:{R}/pdks/Sky130:{R}/pdks/Gf180:{R}/pdks/Asap7")
     try:
         p = subprocess.run(cmd, cwd=ROOT, capture_output=True, text=True, timeout=600, env=env)
     except subprocess.TimeoutExpired:
@@ -143,7 +150,7 @@ def main():
         log(f"HARNESS-ERROR property={pid} no harnesses")
         return 2
     known = [k for k in load_known() if k.get("property") == pid]
-    workdir = os.path.join(ROOT, ".work", pid + "_" + tier)
+    workdir = os.path.join(ROOT, ".work", pid + "_" + tier + os.environ.get("VERIF_WORKTAG", ""))
     subprocess.run(["rm", "-rf", workdir])
     os.makedirs(workdir, exist_ok=True)
     os.makedirs(os.path.join(ROOT, "replays"), exist_ok=True)
@@ -339,7 +346,10 @@ def main():
                                         "each path starts from fresh-process state via reset_all()"],
         "wall_s": wall, "violations": len(violations),
     }
-    json.dump(ev, open(os.path.join(ROOT, "evidence", pid + ".json"), "w"), indent=1, default=str)
+    evpath = os.path.join(ROOT, "evidence", pid + ".json")
+    if os.environ.get("VERIF_WORKTAG"):  # scratch experiment against a seeded copy: never touches the evidence directory
+        evpath = os.path.join(workdir, "evidence_" + pid + ".json")
+    json.dump(ev, open(evpath, "w"), indent=1, default=str)
     log(f"SUMMARY property={pid} tier={tier} obligations={obligations} discharged={discharged} "
         f"paths={paths} reached={reached_total} smt_queries={smt_n} smt_time={smt_t:.1f}s "
         f"inconclusive={len(inconclusive)} known={len(known_lines)} violations={len(violations)} wall={wall}s")
